@@ -332,6 +332,7 @@ void h_run(Ctx &c)
 		vrt_point();
 		vrt_fire_pending();
 		vrt_isr_enable(0);
+		vrt_join_all(); // quiescence: the checks below run after every context has finished
 	} else {
 		// main context = sender 0; receiver is a priority-1 handler, further senders priority 2
 		vrt_spawn(receiver_isr, nullptr, 1);
@@ -343,6 +344,7 @@ void h_run(Ctx &c)
 		vrt_point();
 		vrt_fire_pending();
 		vrt_isr_enable(0);
+		vrt_join_all(); // quiescence: the checks below run after every context has finished
 	}
 	const struct vrt_report *R = vrt_report();
 	if (R->deadlock && !c.failed)
